@@ -16,6 +16,7 @@
    Proofs/ExprChar.v shows they coincide with the clean ones used in the
    theorems. *)
 From Coq Require Import List ZArith NArith Bool String Ascii.
+From Coq Require QArith.
 From Lib Require Import ExprSyntax.
 From Gen Require Import Expr.
 Import ListNotations.
@@ -158,7 +159,7 @@ Definition wrap (s : list tok) : list tok :=
 Definition sqlop_repr (op s1 s2 : list tok) : list tok :=
   TLP :: wrap s1 ++ op ++ wrap s2 ++ [TRP].
 Definition atom_toks (a : atom) : list tok :=
-  match a with AInt z => [TNum z] | AStr s => [TStr s] | ANone => [TNull] end.
+  match a with AInt z => [TNum z] | AStr s => [TStr s] | ANone => [TNull] | AFlo h => [TFlo h] end.
 Definition seq_repr (items : list (list tok)) : list tok :=
   TLP :: join_toks [TComma] items ++ [TRP].
 Definition insub_op (neg : bool) : list tok := if neg then [TNot; TIn] else [TIn].
@@ -220,6 +221,12 @@ Definition dec_N (n : N) : list N := uint_codes (N.to_uint n).
 Definition dec_Z (z : Z) : list N :=
   if z <? 0 then 45%N :: dec_N (Z.to_N (- z)) else dec_N (Z.to_N z).
 
+(* repr(float) of h/2: "n.0" or "n.5" *)
+Definition dec_halves (h : Z) : list N :=
+  let a := Z.abs h in
+  (if h <? 0 then [45%N] else []) ++ dec_N (Z.to_N (Z.quot a 2)) ++ [46%N] ++
+  (if Z.eqb (Z.rem a 2) 0 then [48%N] else [53%N]).
+
 (* the names the correspondence harness gives its table, columns and subqueries *)
 Definition table_name : list N := codes "c03t".
 Definition col_text (c : col) : list N :=
@@ -247,6 +254,7 @@ Definition tok_text (t : tok) : list N :=
   | TOp o => op_text o
   | TNot => codes "NOT" | TIs => codes "IS" | TIn => codes "IN" | TNull => codes "NULL"
   | TNum z => dec_Z z
+  | TFlo h => dec_halves h
   | TStr s => quote_codes s
   | TCol c => col_text c
   | TFn FMod => codes "MOD"
@@ -324,6 +332,17 @@ Definition classify (words : list tok) (w : list N) : option tok :=
 
 Inductive lres := LOk (l : list tok) | LErr | LFuel.
 Definition lcons (t : tok) (r : lres) : lres := match r with LOk l => LOk (t :: l) | e => e end.
+(* after a digit run n: ".0" / ".5" (not followed by another digit) makes the
+   float literal n.0 / n.5 (counted in halves); other fractions are not lexed *)
+Definition num_tail (n : Z) (rest : list N) (k : list N -> lres) : lres :=
+  match rest with
+  | 46%N :: c2 :: rest2 =>
+      if match rest2 with c3 :: _ => is_digit c3 | [] => false end then LErr
+      else if N.eqb c2 48 then lcons (TFlo (2 * n)) (k rest2)
+      else if N.eqb c2 53 then lcons (TFlo (2 * n + 1)) (k rest2)
+      else LErr
+  | _ => lcons (TNum n) (k rest)
+  end.
 
 Fixpoint lex_f (words : list tok) (f : nat) (cs : list N) {struct f} : lres :=
   match f with
@@ -365,7 +384,7 @@ Fixpoint lex_f (words : list tok) (f : nat) (cs : list N) {struct f} : lres :=
           else if is_digit c then
             let (ds, rest) := span is_digit cs in
             match digits_uint ds with
-            | Some u => lcons (TNum (Z.of_N (N.of_uint u))) (lex_f words f' rest)
+            | Some u => num_tail (Z.of_N (N.of_uint u)) rest (lex_f words f')
             | None => LErr
             end
           else if is_alpha c then
@@ -401,7 +420,7 @@ Definition harness_cols : list col :=
 (* tokens the lexer can give back *)
 Definition lexable (words : list tok) (t : tok) : bool :=
   match t with
-  | TLP | TRP | TComma | TNum _ | TStr _ => true
+  | TLP | TRP | TComma | TNum _ | TFlo _ | TStr _ => true
   | TOp BAnd | TOp BOr => existsb (tok_eqb t) words
   | TOp _ => true
   | TSub _ | TBad => false
@@ -423,12 +442,13 @@ Fixpoint cols_in (cols : list col) (n : node) : bool :=
 Definition split_num (t : tok) : list tok :=
   match t with
   | TNum z => if z <? 0 then [TOp BSub; TNum (- z)] else [t]
+  | TFlo h => if h <? 0 then [TOp BSub; TFlo (- h)] else [t]
   | _ => [t]
   end.
 Definition sql_tokens (ts : list tok) : list tok := flat_map split_num ts.
 
 Inductive sx :=
-| SCol (c : col) | SNum (z : Z) | SStr (s : list N) | SNull
+| SCol (c : col) | SNum (z : Z) | SStr (s : list N) | SNull | SFlo (h : Z)
 | SBin (o : binop) (a b : sx)
 | SNeg (a : sx) | SPos (a : sx) | SNot (a : sx)
 | SIsNull (neg : bool) (a : sx)                   (* a IS [NOT] NULL *)
@@ -482,6 +502,7 @@ Section Parser.
             pbind (parse f' O r) (fun x => match x with (e, TRP :: r') => POk (e, r') | _ => PErr end)
         | TCol c :: r => POk (SCol c, r)
         | TNum z :: r => POk (SNum z, r)
+        | TFlo h :: r => POk (SFlo h, r)
         | TStr s :: r => POk (SStr s, r)
         | TNull :: r => POk (SNull, r)
         | TFn FMod :: TLP :: r =>
@@ -565,8 +586,9 @@ Definition parse_rendered (pt : ptable) (ts : list tok) : outcome := parse_sql p
 
 (* ================================================================ meaning *)
 Definition num_sx (z : Z) : sx := if z <? 0 then SNeg (SNum (- z)) else SNum z.
+Definition flo_sx (h : Z) : sx := if h <? 0 then SNeg (SFlo (- h)) else SFlo h.
 Definition atom_sx (a : atom) : sx :=
-  match a with AInt z => num_sx z | AStr s => SStr s | ANone => SNull end.
+  match a with AInt z => num_sx z | AStr s => SStr s | ANone => SNull | AFlo h => flo_sx h end.
 (* the SQL expression a Python tree stands for *)
 Fixpoint denote (n : node) : sx :=
   match n with
@@ -586,10 +608,19 @@ Fixpoint denote (n : node) : sx :=
   end.
 
 (* ---------------- values and three-valued logic *)
-Inductive val := VNull | VInt (z : Z) | VStr (s : list N).
+(* sqlite's storage classes in play: NULL, INTEGER, TEXT, REAL.  REAL values are
+   kept as exact rationals: the correspondence only ever produces values that
+   doubles represent exactly (halves, quotients by powers of two). *)
+Inductive val := VNull | VInt (z : Z) | VStr (s : list N) | VReal (q : QArith_base.Q).
 Inductive tv := TT | TF | TU.
+Definition q_is_zero (q : QArith_base.Q) : bool := Z.eqb (QArith_base.Qnum q) 0.
 Definition tv_of (v : val) : tv :=
-  match v with VNull => TU | VInt z => if z =? 0 then TF else TT | VStr _ => TU end.
+  match v with
+  | VNull => TU
+  | VInt z => if z =? 0 then TF else TT
+  | VStr _ => TU
+  | VReal q => if q_is_zero q then TF else TT
+  end.
 Definition val_of_tv (t : tv) : val := match t with TT => VInt 1 | TF => VInt 0 | TU => VNull end.
 Definition val_of_bool (b : bool) : val := VInt (if b then 1 else 0).
 Definition and3 (a b : tv) : tv :=
@@ -605,17 +636,27 @@ Fixpoint codes_cmp (a b : list N) : comparison :=
   | _ :: _, [] => Gt
   | x :: a', y :: b' => match N.compare x y with Eq => codes_cmp a' b' | c => c end
   end.
+(* a number as a rational *)
+Definition as_q (v : val) : option QArith_base.Q :=
+  match v with VInt z => Some (QArith_base.inject_Z z) | VReal q => Some q | _ => None end.
 Definition cmp_vals (x y : val) : option comparison :=
   match x, y with
-  | VInt a, VInt b => Some (Z.compare a b)
   | VStr a, VStr b => Some (codes_cmp a b)
-  | _, _ => None
+  | _, _ => match as_q x, as_q y with
+            | Some p, Some q => Some (QArith_base.Qcompare p q)
+            | _, _ => None
+            end
   end.
 Definition cmp_holds (o : binop) (c : comparison) : bool :=
   match o, c with
   | BEq, Eq | BNe, Lt | BNe, Gt | BLt, Lt | BLe, Lt | BLe, Eq | BGt, Gt | BGe, Gt | BGe, Eq => true
   | _, _ => false
   end.
+(* CAST(q AS INTEGER): truncation toward zero *)
+Definition q_trunc (q : QArith_base.Q) : Z := Z.quot (QArith_base.Qnum q) (Zpos (QArith_base.Qden q)).
+(* sqlite's arithmetic: INTEGER op INTEGER stays INTEGER (/ truncates, % is the
+   remainder); with a REAL operand + - * / are real; % casts both operands to
+   INTEGER and gives a REAL; a zero divisor gives NULL *)
 Definition v_bin (o : binop) (x y : val) : val :=
   match o with
   | BAnd => val_of_tv (and3 (tv_of x) (tv_of y))
@@ -630,11 +671,24 @@ Definition v_bin (o : binop) (x y : val) : val :=
           | BDiv => if b =? 0 then VNull else VInt (Z.quot a b)
           | _ => if b =? 0 then VNull else VInt (Z.rem a b)
           end
-      | _, _ => VNull
+      | _, _ =>
+          match as_q x, as_q y with
+          | Some p, Some q =>
+              match o with
+              | BAdd => VReal (QArith_base.Qplus p q)
+              | BSub => VReal (QArith_base.Qminus p q)
+              | BMul => VReal (QArith_base.Qmult p q)
+              | BDiv => if q_is_zero q then VNull else VReal (QArith_base.Qdiv p q)
+              | _ => if q_trunc q =? 0 then VNull
+                     else VReal (QArith_base.inject_Z (Z.rem (q_trunc p) (q_trunc q)))
+              end
+          | _, _ => VNull
+          end
       end
   end.
-Definition v_neg (x : val) : val := match x with VInt a => VInt (- a) | _ => VNull end.
-Definition v_pos (x : val) : val := match x with VInt a => VInt a | _ => VNull end.
+Definition v_neg (x : val) : val :=
+  match x with VInt a => VInt (- a) | VReal q => VReal (QArith_base.Qopp q) | _ => VNull end.
+Definition v_pos (x : val) : val := match x with VInt a => VInt a | VReal q => VReal q | _ => VNull end.
 Definition v_not (x : val) : val := val_of_tv (not3 (tv_of x)).
 Definition v_is_null (x : val) : bool := match x with VNull => true | _ => false end.
 Definition v_isnull (neg : bool) (x : val) : val := val_of_bool (xorb neg (v_is_null x)).
@@ -642,7 +696,10 @@ Definition val_eqb (x y : val) : bool :=
   match x, y with
   | VInt a, VInt b => a =? b
   | VStr a, VStr b => codes_eqb a b
-  | _, _ => false
+  | _, _ => match as_q x, as_q y with
+            | Some p, Some q => QArith_base.Qeq_bool p q
+            | _, _ => false
+            end
   end.
 (* x IN (l): over an empty list FALSE whatever x is; otherwise UNKNOWN for a NULL
    x, TRUE when some element equals x, UNKNOWN when none does but one is NULL *)
@@ -657,7 +714,10 @@ Definition in3 (x : val) (l : list val) : tv :=
 Definition v_in (neg : bool) (x : val) (l : list val) : val :=
   val_of_tv (if neg then not3 (in3 x l) else in3 x l).
 Definition atom_val (a : atom) : val :=
-  match a with AInt z => VInt z | AStr s => VStr s | ANone => VNull end.
+  match a with
+  | AInt z => VInt z | AStr s => VStr s | ANone => VNull
+  | AFlo h => VReal (QArith_base.Qmake h 2)
+  end.
 
 (* a row of the queried table and the contents of the subqueries *)
 Record env := { e_col : col -> val; e_sub : N -> list val }.
@@ -666,6 +726,7 @@ Fixpoint eval3 (E : env) (e : sx) : val :=
   match e with
   | SCol c => e_col E c
   | SNum z => VInt z
+  | SFlo h => VReal (QArith_base.Qmake h 2)
   | SStr s => VStr s
   | SNull => VNull
   | SBin o a b => v_bin o (eval3 E a) (eval3 E b)
@@ -705,7 +766,7 @@ Definition ity_is (i : ity) (t : ty) : bool := match i with IAny => true | ITy u
 Definition ity_compatible (a b : ity) : bool :=
   match a, b with ITy t, ITy u => ty_eqb t u | _, _ => true end.
 Definition atom_ity (a : atom) : ity :=
-  match a with AInt _ => ITy TyNum | AStr _ => ITy TyStr | ANone => IAny end.
+  match a with AInt _ | AFlo _ => ITy TyNum | AStr _ => ITy TyStr | ANone => IAny end.
 Inductive opkind := KArith | KCmp | KLogic.
 Definition kind (o : binop) : opkind :=
   match o with
